@@ -79,6 +79,50 @@ func TestVerifC06(t *testing.T) {
 					break
 				}
 			}
+			// optionally a second packer is merged into the first one (what the packer manager does at flush
+			// time), its data coming from a reader that may end early
+			if !limitRun && tp.Choose(3) == 0 {
+				var buf2 bytes.Buffer
+				p2 := NewPacker(key, &buf2)
+				n2 := tp.Range(1, 6)
+				var want2 Blobs
+				off2 := uint(0)
+				for i := 0; i < n2; i++ {
+					var id restic.ID
+					st.Fill(id[:])
+					ln := 33 + tp.Choose(300)
+					ct := make([]byte, ln)
+					st.Fill(ct)
+					if _, err := p2.Add(restic.DataBlob, id, ct, 0); err != nil {
+						r.Abort = "Add: " + err.Error()
+						return
+					}
+					want2 = append(want2, Blob{BlobHandle: restic.BlobHandle{ID: id, Type: restic.DataBlob}, Length: uint(ln), Offset: off + off2})
+					off2 += uint(ln)
+				}
+				src := buf2.Bytes()[:off2]
+				short := 0
+				if tp.Choose(2) == 0 {
+					short = 1 + tp.Choose(int(off2))
+					src = src[:int(off2)-short]
+					s.Count("fault:merge-source-ends-early")
+				}
+				merr := p.Merge(p2, bytes.NewReader(src))
+				if short > 0 {
+					if merr == nil {
+						r.Fail("exact-listing", "merge-accepted-short-source", "Merge of a packer with %d bytes succeeded although its data source ended %d bytes early", off2, short)
+					}
+					r.Count("short_merges_refused", 1)
+					return
+				}
+				if merr != nil {
+					r.Fail("exact-listing", "merge-failed", "Merge of an intact packer failed: %v", merr)
+					return
+				}
+				want = append(want, want2...)
+				off += off2
+				r.Count("merged_packs", 1)
+			}
 			if err := p.Finalize(); err != nil {
 				r.Abort = "Finalize: " + err.Error()
 				return
